@@ -456,7 +456,7 @@ pub fn run(ctx: &Ctx) -> Report {
         stats.merge(st);
     }
     let mut rep = Report::new(stats,
-        "cases: every permutation P of n<=6 (quick) / n<=8 (thorough) rows as A=P*L*U (3 variants: plain, extra zeros, 2^-40 entries), random P for larger n, random dense/sparse-pattern/triangular/permutation-like/zero-diagonal integer matrices, all 3^(n*n) sign/zero patterns for n<=3, exact 2^k row/column scalings, global scalings 2^(+-300) of A and b (solution must scale bit-exactly), orders 9..32 and occasionally up to 330 (pivot-tie growth traps and random dense, f64), general graded floats; each through Rat, CRat (exact complex), f64 and Complex<f64>. A case is non-trivial when n>=2, the system is certified nonsingular and both solvers were called; distinct = distinct (type,class,A,b) hashes");
+        "[round 6: plus decoupled tiny-pivot systems, one unknown with coefficient q*2^-e (f64: e 600..1071, subnormal included; complex: e 100..330) at a random position of a strictly dominant system n=2..8] cases: every permutation P of n<=6 (quick) / n<=8 (thorough) rows as A=P*L*U (3 variants: plain, extra zeros, 2^-40 entries), random P for larger n, random dense/sparse-pattern/triangular/permutation-like/zero-diagonal integer matrices, all 3^(n*n) sign/zero patterns for n<=3, exact 2^k row/column scalings, global scalings 2^(+-300) of A and b (solution must scale bit-exactly), orders 9..32 and occasionally up to 330 (pivot-tie growth traps and random dense, f64), general graded floats; each through Rat, CRat (exact complex), f64 and Complex<f64>. A case is non-trivial when n>=2, the system is certified nonsingular and both solvers were called; distinct = distinct (type,class,A,b) hashes");
     rep.assumptions = vec![
         "float cases are judged only with a conditioning certificate kappa_inf <= 1e8: exact inverse over Rat/CRat of the identical dyadic data (also for the 2^+-8 row-scaled variant; 2^+-40 column scalings do not change pivoting or rounding), or harness complete-pivoting Gauss-Jordan (pivot ratio >= 2^-30) for general floats".into(),
         "f64 backward-error threshold 1024*n*u fixed in harness (measured worst on unchanged tree ~3e-16)".into(),
